@@ -1107,10 +1107,10 @@ fn main() {
     if args.case.is_none() {
         let mut rng = Rng::new(args.seed);
         let thorough = args.thorough();
-        let n = args.n.unwrap_or(if thorough { 5000 } else { 400 });
+        let n = args.n.unwrap_or(if thorough { 2000 } else { 400 });
         let npaths = if thorough { 48 } else { 30 };
         // (a) exhaustive blocks: a pattern × every path over the alphabet up to a length
-        let exh_patterns = if args.n.is_some() { 0 } else if thorough { 40 } else { 3 };
+        let exh_patterns = if args.n.is_some() { 0 } else if thorough { 8 } else { 3 };
         let exh_len = if thorough { 5 } else { 4 };
         let every = all_strings(ALPHA, exh_len);
         for i in 0..exh_patterns {
@@ -1133,8 +1133,8 @@ fn main() {
                     continue;
                 }
                 k += 1;
-                let prot: &[u8] = if k % 3 == 0 { b"" } else if k % 3 == 1 { b"%/+" } else { b"/" };
-                if thorough || k % 8 == 0 {
+                let prot: &[u8] = if (k / 7) % 3 == 0 { b"" } else if (k / 7) % 3 == 1 { b"%/+" } else { b"/" };
+                if (thorough && k % 5 == 0) || k % 8 == 0 {
                     emit_case(&mut em, format!("qexh-{k}"), Case::Quote { prot: hex(prot), s: hex(s) }, &mut totals);
                 }
             }
